@@ -178,6 +178,15 @@ RefDecision(R, u, o, s, perms) ==
   ELSE IF Same(R, s, u) THEN {OpenedWith(Closure(perms))}               \* user access
   ELSE {AuthErr}
 
+\* requests a Writer may turn down: encryption did not exist in PDF 1.0,
+\* EncryptMetadata false needs a crypt filter version (PDF 1.6 in go-pdf's
+\* reading), and a password must be preparable
+RefMayRefuse(rq) ==
+  /\ UseEncryption(rq)
+  /\ \/ rq.version = 10
+     \/ ~rq.emd /\ rq.version < 16
+     \/ ~Preparable(rq.user) \/ ~Preparable(rq.owner)
+
 \* revisions ISO 32000-2 Table 20/21 admits for a file of the given version
 RefRevisions(v) == IF v >= 20 THEN {6} ELSE IF v >= 16 THEN {4} ELSE IF v >= 14 THEN {3} ELSE {2, 3}
 
@@ -284,6 +293,8 @@ PermsOK == (phase = "written" /\ file.enc) =>
               /\ ReaderAgreesOnWritten(file.R, file.P)
 \* the scheme chosen is one the standard admits for the version
 SchemeOK == (phase = "written" /\ file.enc) => file.R \in RefRevisions(req.version)
+\* the Writer refuses only what the reference lets it refuse
+RefusalOK == phase = "refused" => RefMayRefuse(req)
 \* the actions and the functional form agree, and no read gets stuck
 RunAgrees == Done => LET r == ImplRead(file, sup)
                      IN r.out = out /\ r.key = key /\ r.access = access
